@@ -132,7 +132,9 @@ def _init_worker(fn_module, fn_name):
     _WORK_FN = getattr(mod, fn_name)
 
 
-CASE_TIMEOUT = float(os.environ.get("VERIF_CASE_TIMEOUT", "90"))
+# CPU-time budget per case: the slowest quick case costs ~10 s, the slowest thorough one ~40 s (C02, 25 600 levels x 3
+# ladders); a correct but several times slower refactor must not look like a hang
+CASE_TIMEOUT = float(os.environ.get("VERIF_CASE_TIMEOUT", "150"))
 MAX_HANGS = 6
 
 
@@ -154,6 +156,9 @@ def _run_one(args):
 
 class Ctx:
     def __init__(self, prop: str, tier: str, seed: int):
+        global CASE_TIMEOUT
+        if tier == "thorough" and "VERIF_CASE_TIMEOUT" not in os.environ:
+            CASE_TIMEOUT = 900.0  # (set before the pool forks: workers inherit it)
         self.prop, self.tier, self.seed = prop, tier, seed
         self.t0 = time.time()
         self.violations: list[dict] = []
